@@ -21,11 +21,15 @@ import (
 //	         sample=<the single key of Counts> and count=<its value>
 //	         (a record that never went through obiuniq);
 //	         with the sample name "NA" the sample attribute is left out altogether.
+//	Stale  : obiclean_* annotations the record already carries in the input FILE (what a
+//	         previous obiclean run left behind); results, not inputs: they must not
+//	         influence anything.  Only used by the command-line checks.
 type rec struct {
 	Id     string
 	Seq    string
 	Counts map[string]int
-	Plain  bool `json:",omitempty"`
+	Plain  bool           `json:",omitempty"`
+	Stale  map[string]any `json:",omitempty"`
 }
 
 func (r rec) total() int {
